@@ -25,6 +25,8 @@ import (
 	rmntypes "github.com/smartcontractkit/chainlink-ccip/commit/merkleroot/rmn/types"
 	"github.com/smartcontractkit/chainlink-ccip/internal/mocks"
 	"github.com/smartcontractkit/chainlink-ccip/internal/plugintypes"
+	"github.com/smartcontractkit/chainlink-ccip/pkg/consts"
+	readerpkg "github.com/smartcontractkit/chainlink-ccip/pkg/reader"
 	cciptypes "github.com/smartcontractkit/chainlink-ccip/pkg/types/ccipocr3"
 	"github.com/smartcontractkit/chainlink-ccip/pluginconfig"
 )
@@ -123,9 +125,18 @@ func vC13Plugin(me int) *Plugin {
 	p := NewPlugin(1, m, cfg, vC13Dest, rd, vC13Prices{}, mocks.NewCommitPluginJSONReportCodec(),
 		mocks.NewMessageHasher(), mocks.NullLogger, hc, nil, nil, nil,
 		ocr3types.ReportingPluginConfig{F: 1, N: vC13N, OracleID: commontypes.OracleID(me), MaxDurationQuery: time.Second})
-	p.discoveryProcessor = nil
+	switch vC13Disc {
+	case 0:
+		p.discoveryProcessor = nil
+	case 1: // discovery enabled, contracts already initialised
+		p.contractsInitialized.Store(true)
+	}
+	// case 2: discovery enabled, fresh instance (discovery-only observations until the first Outcome)
 	return p
 }
+
+// vC13Disc selects the discovery configuration of the plugins built by vC13Plugin (see the cases above)
+var vC13Disc = 0
 
 type vC13Scenario struct {
 	name string
@@ -199,6 +210,19 @@ func vC13Scenarios() []vC13Scenario {
 				ob.TokenPriceObs.FeeQuoterTokenUpdates[tok] = plugintypes.TimestampedBig{Timestamp: base.Add(-2 * time.Minute), Value: cciptypes.NewBigIntFromInt64(9e8)}
 			}
 			ob.MerkleRootObs.RMNRemoteConfig = sc.prev.MerkleRootOutcome.RMNRemoteCfg
+			ob.DiscoveryObs.FChain = vC13FChain()
+			ob.DiscoveryObs.Addresses = readerpkg.ContractAddresses{
+				consts.ContractNameOnRamp:       map[cciptypes.ChainSelector]cciptypes.UnknownAddress{},
+				consts.ContractNameNonceManager: map[cciptypes.ChainSelector]cciptypes.UnknownAddress{vC13Dest: {0xD1}},
+				consts.ContractNameRMNRemote:    map[cciptypes.ChainSelector]cciptypes.UnknownAddress{vC13Dest: {0xD2}},
+				consts.ContractNameFeeQuoter:    map[cciptypes.ChainSelector]cciptypes.UnknownAddress{vC13Dest: {0xD3}},
+				consts.ContractNameRouter:       map[cciptypes.ChainSelector]cciptypes.UnknownAddress{},
+			}
+			for _, ch := range vC13Sources {
+				ob.DiscoveryObs.Addresses[consts.ContractNameOnRamp][ch] = cciptypes.UnknownAddress{byte(ch), 0xAA}
+				ob.DiscoveryObs.Addresses[consts.ContractNameFeeQuoter][ch] = cciptypes.UnknownAddress{byte(ch), 0xFE}
+				ob.DiscoveryObs.Addresses[consts.ContractNameRouter][ch] = cciptypes.UnknownAddress{byte(ch), 0xB0}
+			}
 			sc.obs = append(sc.obs, ob)
 		}
 		return sc
@@ -238,7 +262,13 @@ func TestVerif_C13_commit(t *testing.T) {
 			map[string]any{"scenario": scn, "doc": doc, "path": path, "mutation": kind, "callback": cbName, "code": code, "panic": what})
 		emitted++
 	}
+	defer func() { vC13Disc = 0 }()
+	for _, disc := range []int{0, 1, 2} {
+	vC13Disc = disc
 	for _, sc := range vC13Scenarios() {
+		if disc > 0 {
+			sc.name = fmt.Sprintf("disc%d/%s", disc, sc.name)
+		}
 		prevB, _ := sc.prev.Encode()
 		qB, _ := sc.q.Encode()
 		obsB := make([][]byte, vC13N)
@@ -396,5 +426,6 @@ func TestVerif_C13_commit(t *testing.T) {
 			run(sc.name, 6, tag, "raw", 5, "ShouldAccept", func() { _, _ = vC13Plugin(1).ShouldAcceptAttestedReport(ctx, 5, ri) })
 			run(sc.name, 6, tag, "raw", 6, "ShouldTransmit", func() { _, _ = vC13Plugin(1).ShouldTransmitAcceptedReport(ctx, 5, ri) })
 		}
+	}
 	}
 }
